@@ -138,5 +138,42 @@ def register(reg):
     ))
 
 
+REPLAY_EXTRA = {"finam.sdk.component.Component.update": "finished_status.py", "finam.sdk.component.Component.validate": "finished_status.py"}
 BOUNDED = {"C20": [{"name": "pull-based-and-static-slots", "script": "replay/drivers/bnd_c20.py", "args": ["--json"], "timeout": 900}]}
-REPLAY = {f"{WS}._get_data": "bnd_c20.py"}
+REPLAY = {f"{WS}._get_data": "bnd_c20.py", **REPLAY_EXTRA}
+
+
+# =================================================================================================
+# sdk.Component: the life-cycle wrappers around the user hooks (C03.1)
+# =================================================================================================
+def register_lifecycle(reg):
+    from .c_schedule import st
+    COMP = "finam.sdk.component.Component"
+    reg.field("$hook_status", sv.Int)      # ghost: the status the component had when its hook returned
+    reg.field("frozen", sv.Bool)
+    reg.field("_outputs", TDict(Str, TRef("IOutput")), "Component")
+    SF = "Component._status"
+    status = lambda ctx: ctx.get(ctx.self, SF).e
+    hooked = lambda ctx: ctx.get(ctx.self, "$hook_status").e
+
+    # the user hooks: may report a failure (FAILED); _update may also report that the component is FINISHED
+    # (documented: "After the method call, the component should have status UPDATED or FINISHED")
+    for name, may in (("_initialize", ("FAILED",)), ("_validate", ("FAILED",)), ("_update", ("FAILED", "FINISHED"))):
+        def post(ctx, r, may=may):
+            s0, s1 = ctx.old.get(ctx.self, SF).e, status(ctx)
+            return And(hooked(ctx) == s1, Or(s1 == s0, *[s1 == st(m) for m in may]))
+        reg.add(Contract(f"iface:Component.{name}", params={}, note="method", verify=False,
+                         modifies=lambda ctx: [(ctx.self, SF), (ctx.self, "$hook_status")], ensures=post))
+
+    def wrapper(name, target, keep, pre):
+        def post(ctx, r):
+            h = hooked(ctx)
+            return {f"ends {target} unless the hook reported {' / '.join(keep)} (a reported state is never overwritten)":
+                    status(ctx) == If(Or(*[h == st(k) for k in keep]), h, st(target))}
+        reg.add(Contract(f"{COMP}.{name}", self_cls="Component", props=["C03.1", "C03.3"], params={}, ensures=post, modifies=None,
+                         requires=lambda ctx: Or(*[status(ctx) == st(p) for p in pre]),
+                         virtual=[f"_{name}"], name=f"{name}<Component>", primary=False))
+
+    # (initialize additionally freezes the slot lists: IOList is not modelled; its status logic is the same pattern as validate)
+    wrapper("validate", "VALIDATED", ("FAILED",), ("CONNECTED",))
+    wrapper("update", "UPDATED", ("FAILED", "FINISHED"), ("VALIDATED", "UPDATED"))
